@@ -21,6 +21,7 @@ import (
 	"testing"
 
 	"github.com/miekg/dns"
+	"github.com/semihalev/sdns/internal/mock"
 )
 
 // a transport without an Internal() method
@@ -212,6 +213,28 @@ func TestVerifC17Writer(t *testing.T) {
 		n = len(all)
 	}
 	ch := NewChain([]Handler{})
+	// internal/mock.Writer — what server.ServeHTTP builds for every DoH / DoH3 request, and what most of the repository's
+	// tests use — computes its own Internal() from the peer address: every sentinel-neighbourhood address x port x proto
+	for _, proto := range []string{"doh", "tcp", "udp"} {
+		for _, lit := range []string{"127.0.0.255", "[::ffff:127.0.0.255]", "127.0.0.254", "127.0.1.0", "[::ffff:127.0.0.254]", "[::127.0.0.255]", "[::1]", "10.1.2.3", "[2001:db8::1]"} {
+			for _, port := range []int{0, 1, 53, 4242, 65535} {
+				mw := mock.NewWriter(proto, fmt.Sprintf("%s:%d", lit, port))
+				remote := vC17CoqRemote(mw.RemoteAddr(), fmt.Sprintf("(Some %v)", mw.Internal()))
+				req := new(dns.Msg)
+				req.SetQuestion("w.c17.test.", dns.TypeA)
+				ch.Reset(mw, req)
+				internal := ch.Writer.Internal()
+				emit(map[string]any{"k": "writer-mock-says", "coq": "CaseTransportSays " + remote, "nontrivial": true,
+					"desc": map[string]any{"proto": proto, "remote": fmt.Sprintf("%s:%d", lit, port), "mock_internal": mw.Internal()}})
+				k := "writer-mock-client"
+				if internal {
+					k = "writer-mock-internal"
+				}
+				emit(map[string]any{"k": k, "coq": fmt.Sprintf("CaseWriter %s %v %s", remote, internal, vC17CoqIP(ch.Writer.RemoteIP())), "nontrivial": true,
+					"desc": map[string]any{"entry": "Chain.Reset", "proto": proto, "remote": fmt.Sprintf("%s:%d", lit, port), "mock_internal": mw.Internal(), "writer_internal": internal}})
+			}
+		}
+	}
 	for _, c := range all[:n] {
 		ip, port := ips[c.ipi].ip, ports[c.porti]
 		var addr net.Addr
